@@ -380,6 +380,44 @@ func GenFeed(r *core.Rand, o Opts) *Feed {
 	seen := map[string]bool{}
 	for i := 0; i < nT; i++ {
 		d := GenTripDesc(r, i)
+		if len(f.Trips) > 0 && r.Chance(1, 3) {
+			// a sibling of an earlier trip: the same descriptor except for ONE aspect, so that
+			// identifiers that are easy to conflate (absent vs 00:00:00, absent vs direction 0) occur together
+			d = proto.Clone(core.Pick(r, f.Trips).Desc).(*gtfsrt.TripDescriptor)
+			switch r.Intn(5) {
+			case 0:
+				if d.StartTime == nil {
+					d.StartTime = S("00:00:00")
+				} else {
+					d.StartTime = nil
+				}
+			case 1:
+				if d.StartDate == nil {
+					d.StartDate = S("19700101")
+				} else {
+					d.StartDate = nil
+				}
+			case 2:
+				switch {
+				case d.DirectionId == nil:
+					d.DirectionId = U32(0)
+				case *d.DirectionId == 0:
+					d.DirectionId = U32(1)
+				default:
+					d.DirectionId = nil
+				}
+			case 3:
+				sr := gtfsrt.TripDescriptor_ScheduleRelationship((int32(d.GetScheduleRelationship()) + 1) % 4)
+				d.ScheduleRelationship = &sr
+			default:
+				if d.GetRouteId() == "" {
+					d.RouteId = S("A")
+				} else {
+					d.RouteId = nil
+				}
+			}
+			f.feat("sibling-trip-descriptor")
+		}
 		k := DescKey(d)
 		if seen[k] {
 			continue
